@@ -82,7 +82,15 @@ type Node struct {
 	Proxy  *faultproxy.Proxy // non-nil if the node advertises its federation address through a proxy
 }
 
+var (
+	portMu   sync.Mutex
+	usedPort = map[int]bool{}
+	startMu  sync.Mutex // node start-ups are serialised: ports are probed and then bound by serf / gRPC
+)
+
 func freePort() (string, error) {
+	portMu.Lock()
+	defer portMu.Unlock()
 	for i := 0; i < 50; i++ {
 		l, err := net.Listen("tcp", "127.0.0.1:0")
 		if err != nil {
@@ -96,6 +104,10 @@ func freePort() (string, error) {
 			continue
 		}
 		u.Close()
+		if usedPort[a.Port] {
+			continue
+		}
+		usedPort[a.Port] = true
 		return a.String(), nil
 	}
 	return "", fmt.Errorf("no free port")
@@ -104,6 +116,8 @@ func freePort() (string, error) {
 // Start launches a node. name must be unique in the process (it identifies the node in the applied-event trace).
 func Start(name string, join []string, viaProxy bool, extra func(c *config.Config)) (*Node, error) {
 	install()
+	startMu.Lock()
+	defer startMu.Unlock()
 	gossip, err := freePort()
 	if err != nil {
 		return nil, err
